@@ -424,6 +424,19 @@ func init() {
 		if ex.findMethod(r.t, "VerifReadAll") != nil {
 			return ex.callMethod(fr, site, r, "VerifReadAll")
 		}
+		if p, ok := r.v.(*Value); ok && p != nil {
+			if c := ex.hctxGet(p, "content"); c != nil {
+				// engine-made *bytes.Reader / *bytes.Buffer / *strings.Reader
+				ex.hctxSet(p, "content", nil)
+				if bs, ok := c.(ByteStr); ok {
+					return Tuple{bs, Iface{}}
+				}
+				return Tuple{c.(Value), Iface{}}
+			}
+			if ex.hctxGet(p, "contentRead") == true {
+				return Tuple{ByteStr{s: mkStr("")}, Iface{}}
+			}
+		}
 		panic(unsupported("io.ReadAll on " + r.t.String() + " (no VerifReadAll)"))
 	})
 	reg("io.NopCloser", func(ex *Exec, fr *Frame, site ssa.Instruction, a []Value) Value {
